@@ -45,6 +45,16 @@ Theorem C03img_refuse :
     (from_sequence_img unitv ims odim = Err EValue <-> ~ mergeable unitv dim ims im0).
 Proof. exact merge_refuse_law. Qed.
 
+(** ... i.e. refusal iff SOME input is oriented differently, or (spatial merge axis) SOME consecutive pair of
+    translations fails the step test *)
+Theorem C03img_refuse_exists :
+  forall (unitv : vec -> vec) (dim : nat) (ims : list img) (d : img),
+    ~ mergeable unitv dim ims d <->
+    (exists i, i < length ims /\ orient_okb unitv dim (iaff (nth 0 ims d)) (iaff (nth i ims d)) = false) \/
+    (dim < 3 /\ exists i, S i < length ims /\
+                          bad_step unitv dim (iaff (nth i ims d)) (iaff (nth (S i) ims d)) = true).
+Proof. exact not_mergeable_iff. Qed.
+
 Theorem C03img_never_crashes :
   forall (unitv : vec -> vec) (ims : list img) (odim : option nat) (dim : nat) (im0 : img) (rest : list img),
     ims = im0 :: rest -> uniform ims (ishape im0) ->
@@ -110,6 +120,11 @@ Proof. eexists. split; [vm_compute; reflexivity|]. repeat split. Qed.
 Example C03img_refuse_nonvacuous :
   uniform [ex0; ex2; ex1] [1; 2; 2] /\ from_sequence_img unit_exact [ex0; ex2; ex1] (Some 0) = Err EValue.
 Proof. split; [apply ex_uniform; reflexivity | vm_compute; reflexivity]. Qed.
+
+Example C03img_refuse_exists_nonvacuous :
+  exists i, S i < length [ex0; ex2; ex1] /\
+            bad_step unit_exact 0 (iaff (nth i [ex0; ex2; ex1] ex0)) (iaff (nth (S i) [ex0; ex2; ex1] ex0)) = true.
+Proof. exists 1. split; [cbn; lia | vm_compute; reflexivity]. Qed.
 
 (** [unit_exact] is one of the functions the theorems quantify over, with [unit_ok] at the vectors of the example *)
 Example C03img_never_crashes_nonvacuous :
